@@ -1385,3 +1385,136 @@ class AffEval:
 
 _NOCONST = object()
 _FALLS = object()
+
+
+# --------------------------------------------------------------------------------------
+# pure helpers seen through (C13 R3: the worker fraction computed by an extracted function / method)
+# --------------------------------------------------------------------------------------
+
+
+def resolve_imported(m: pf.Module, name: str, depth: int = 3) -> Optional[Tuple[pf.Module, ast.AST]]:
+    """(module, def / assigned value) of the global `name` of m: defined in m, or in the repository module m imports it from."""
+    import os
+    from .common import repo_path
+    for st in m.tree.body:
+        if isinstance(st, (ast.FunctionDef, ast.AsyncFunctionDef)) and st.name == name:
+            return m, st
+        if isinstance(st, ast.Assign) and len(st.targets) == 1 and isinstance(st.targets[0], ast.Name) and st.targets[0].id == name:
+            return m, st.value
+        if isinstance(st, ast.AnnAssign) and isinstance(st.target, ast.Name) and st.target.id == name and st.value is not None:
+            return m, st.value
+    origin = m.imports().get(name)
+    if origin is None or depth <= 0:
+        return None
+    level = len(origin) - len(origin.lstrip('.'))
+    parts = origin.lstrip('.').split('.')
+    sym, modparts = parts[-1], parts[:-1]
+    if level == 0:
+        cands = [os.path.join(root, *modparts) for root in ('batch', 'hail/python', 'gear', 'web_common', '')]
+    else:
+        base = os.path.dirname(m.rel)
+        for _ in range(level - 1):
+            base = os.path.dirname(base)
+        cands = [os.path.join(base, *modparts)] if modparts else [base]
+    for c in cands:
+        for rel in (c + '.py', os.path.join(c, '__init__.py')):
+            if os.path.isfile(repo_path(rel)):
+                try:
+                    return resolve_imported(pf.load(rel), sym, depth - 1)
+                except AnalysisError:
+                    return None
+    return None
+
+
+def pure_return(fn: pf.FuncDef) -> Optional[ast.expr]:
+    """The value a function returns as ONE expression over its parameters, when its body is docstring / asserts / single-target assignments and a final
+    `return <expr>` (assignments substituted in program order, so `x = f(x)` re-assignments are fine).  None: not such a function."""
+    if isinstance(fn, ast.AsyncFunctionDef) or fn.args.vararg or fn.args.kwarg:
+        return None
+    if any(True for n in pf.walk_shallow(fn) if isinstance(n, (ast.Yield, ast.YieldFrom, ast.Await, ast.Global, ast.Nonlocal))):
+        return None
+    body = [s for s in fn.body if not (isinstance(s, ast.Expr) and isinstance(s.value, ast.Constant)) and not isinstance(s, (ast.Assert, ast.Pass))]
+    if not body or not isinstance(body[-1], ast.Return) or body[-1].value is None:
+        return None
+    env: Dict[str, ast.expr] = {}
+    for s in body[:-1]:
+        if isinstance(s, ast.Assign) and len(s.targets) == 1 and isinstance(s.targets[0], ast.Name):
+            env[s.targets[0].id] = _subst_seq(s.value, env)
+        elif isinstance(s, ast.AnnAssign) and isinstance(s.target, ast.Name) and s.value is not None:
+            env[s.target.id] = _subst_seq(s.value, env)
+        else:
+            return None
+    return _subst_seq(body[-1].value, env)
+
+
+def inline_pure(e: ast.AST, m: pf.Module, cls_name: Optional[str], classes: Classes, depth: int = 3) -> Tuple[ast.expr, List[str]]:
+    """Copy of e in which every call of a pure helper - a module-level function of m (or of the repository module it is imported from), or a method of
+    `cls_name` / its analysed bases called as self.h(..) / cls.h(..) / Cls.h(..) - is replaced by the expression the helper returns, with the
+    arguments substituted for its parameters (defaults filled in; `self` stays `self`).  Calls that do not fit are left alone.  Returns (expression,
+    names of the helpers seen through)."""
+    seen: List[str] = []
+
+    def callee(c: ast.Call, mod: pf.Module) -> Optional[Tuple[pf.Module, pf.FuncDef, bool, str]]:
+        f = c.func
+        if isinstance(f, ast.Name):
+            r = resolve_imported(mod, f.id)
+            if r is not None and isinstance(r[1], ast.FunctionDef):
+                return r[0], r[1], False, f.id
+            return None
+        if isinstance(f, ast.Attribute) and isinstance(f.value, ast.Name) and cls_name is not None:
+            order = mro(cls_name, classes) or [cls_name]
+            if f.value.id in ('self', 'cls') or f.value.id in order:
+                for cn in order:
+                    if cn not in classes:
+                        continue
+                    mm, cd = classes[cn]
+                    fn = methods(cd).get(f.attr)
+                    if fn is not None:
+                        kind, _ = decorator_kind(fn)
+                        if kind == 'plain':
+                            return (mm, fn, True, f'{cn}.{f.attr}') if f.value.id == 'self' else None
+                        if kind == 'static' and isinstance(fn, ast.FunctionDef):
+                            is_cm = any(pf.dotted(d) == 'classmethod' for d in fn.decorator_list)
+                            return mm, fn, is_cm, f'{cn}.{f.attr}'
+                        return None
+        return None
+
+    def go(x: ast.AST, mod: pf.Module, d: int) -> ast.AST:
+        class T(ast.NodeTransformer):
+            def visit_Call(self, node: ast.Call):
+                self.generic_visit(node)
+                if d <= 0 or any(isinstance(a, ast.Starred) for a in node.args) or any(k.arg is None for k in node.keywords):
+                    return node
+                r = callee(node, mod)
+                if r is None:
+                    return node
+                mm, fn, skip_first, label = r
+                ret = pure_return(fn)
+                if ret is None:
+                    return node
+                ps = [a.arg for a in list(fn.args.posonlyargs) + list(fn.args.args)]
+                if skip_first:
+                    ps = ps[1:]
+                kwo = [a.arg for a in fn.args.kwonlyargs]
+                if len(node.args) > len(ps) or any(k.arg not in ps + kwo for k in node.keywords):
+                    return node
+                bind: Dict[str, ast.expr] = dict(zip(ps, node.args))
+                for k in node.keywords:
+                    if k.arg in bind:
+                        return node
+                    bind[k.arg] = k.value  # type: ignore[index]
+                dfl = dict(zip(([a.arg for a in list(fn.args.posonlyargs) + list(fn.args.args)])[-len(fn.args.defaults):] if fn.args.defaults else [], fn.args.defaults))
+                dfl.update({a.arg: v for a, v in zip(fn.args.kwonlyargs, fn.args.kw_defaults) if v is not None})
+                for p in ps + kwo:
+                    if p not in bind:
+                        if p in dfl and isinstance(dfl[p], ast.Constant):
+                            bind[p] = dfl[p]
+                        else:
+                            return node
+                # names of the helper's module that are not parameters stay as they are (module constants): only sound to show, the typing rules decide on them
+                body = go(ret, mm, d - 1)
+                seen.append(label)
+                return ast.copy_location(_subst_seq(body, bind), node)
+        return T().visit(copy.deepcopy(x))
+    out = go(e, m, depth)
+    return out, seen  # type: ignore[return-value]
